@@ -3,7 +3,7 @@ scripted fake asyncio transport and the virtual loop, against the Lean write-pat
 (`drv_c15`), with the property oracle on the implementation's own trace.
 
 Events:  ('S', sender, msg, flags, big)  a task calls session._send_message(<body of msg>);
-                                          big: the framed message is 150-300 KB (several 64 KiB
+                                          big: the framed message is 150 KB - 1.1 MB (several
                                           pieces), otherwise a few bytes.  Text: `S s m f` / `B s m f`
                                           The 5th field is the SHAPE of the sender: False / True =
                                           `_send_message` of a small / big raw message (`S`/`B`);
@@ -45,7 +45,7 @@ from harness.base import Results, corpus_lines
 
 MAXDELAY = 20
 FORCE_AFTER = 100000
-RULE = ('case = sequence of <=14 events over {send of a small or a big (150-300 KB framed) message '
+RULE = ('case = sequence of <=14 events over {send of a small or a big (150 KB - 1.1 MB framed) message '
         'by one of 4 senders, pause, resume, link lost, time passes, cancel the sender of message '
         'k, graceful close with/without unsent data, batches of sends/pauses/resumes performed '
         'back to back before the loop runs again} with a scripted high-water policy (the '
@@ -63,7 +63,9 @@ def body(m, big):
     k = (m, big)
     if k not in _BODY:
         if big:
-            n = 150000 + (m % 4) * 50000
+            # a few sizes; ids 1, 5, 9.. are beyond 1 MiB (several pieces for any plausible piece
+            # size of a write() that hands a frame over in parts)
+            n = (150000, 1100000, 250000, 300000)[m % 4]
             unit = b'<%d>' % m
             _BODY[k] = (b'%d:' % m + unit * (n // len(unit) + 1))[:n]
         else:
